@@ -229,6 +229,9 @@ func setup() *env {
 		}
 	}
 	srv.Mod.OnCall = e.onCall
+	// happens-before edge for the server goroutines that read OnCall under verifmod's mutex (the field is set after
+	// Start has already launched the accept loop; the harness is built with -race)
+	srv.Mod.SetScript(e2e.Script{})
 	E = e
 	if err := e.reload(1, false); err != nil {
 		panic(err)
@@ -670,7 +673,7 @@ func gen(r *hv.Rng, i int, tier string) (string, hv.Val) {
 }
 
 func main() {
-	hv.Main(&hv.Spec{Prop: "C15", Gen: gen, Impl: impl, NQuick: 420, NThorough: 20000})
+	hv.Main(&hv.Spec{Prop: "C15", Gen: gen, Impl: impl, NQuick: 300, NThorough: 20000})
 	if E != nil {
 		E.srv.Close()
 	}
